@@ -54,12 +54,16 @@ let rec rd_val = function
          | [] -> failwith "eof" in mem [] r
      | _ -> failwith ("token " ^ t))
 
+(* the table is long for long numbers (one entry per possible number start): entries are decoded when they are asked for *)
 let ora_of tbl =
-  let ents = if tbl = "-" then [] else
-    List.map (fun e -> match String.split_on_char ':' e with
-      | [rem; bits; k; er] -> (int_of_string rem, ((z_of_hexstr bits, nat_of_int (int_of_string k)), er = "1"))
-      | _ -> failwith "table") (String.split_on_char ';' tbl) in
-  fun p -> List.assoc (List.length p) ents
+  let ents = if tbl = "-" then [] else String.split_on_char ';' tbl in
+  fun p ->
+    let key = string_of_int (List.length p) ^ ":" in
+    let kl = String.length key in
+    let e = List.find (fun e -> String.length e > kl && String.sub e 0 kl = key) ents in
+    match String.split_on_char ':' e with
+    | [_; bits; k; er] -> ((z_of_hexstr bits, nat_of_int (int_of_string k)), er = "1")
+    | _ -> failwith "table"
 
 let handle = function
   | ["parse"; h; tbl] ->
@@ -96,6 +100,7 @@ let handle = function
   | ["strtoll"; h] ->
     let ((v, k), er) = strtoll0 (trunc0 (bytes_of_hex h)) in
     Printf.sprintf "%s %d %d" (string_of_z v) (int_of_nat k) (if er then 1 else 0)
+  | ["strtod"; h] -> string_of_int (int_of_nat (strtod_end (trunc0 (bytes_of_hex h))))
   | [] -> ""
   | l -> "?" ^ String.concat " " l
 let () = main_loop handle
